@@ -7,6 +7,7 @@ package main
 import (
 	"bytes"
 	"context"
+	"errors"
 	"fmt"
 	"reflect"
 	"runtime"
@@ -45,6 +46,33 @@ func (c *Cfg) c() int {
 
 var errVerify = fmt.Errorf("harness: A > B")
 var errSource = fmt.Errorf("harness: source error")
+
+// errors of unusual shape a source may hand to ReportError
+type panicErr struct{}
+
+func (panicErr) Error() string { panic("harness: this error's Error method panics") }
+
+type ptrErr struct{ s string }
+
+func (e *ptrErr) Error() string { return e.s }
+
+func reportedErr(ev string) error {
+	switch ev {
+	case "nil":
+		return nil
+	case "panic":
+		return panicErr{}
+	case "nilptr":
+		return (*ptrErr)(nil)
+	}
+	return errSource
+}
+func isOddErr(err error) bool {
+	var p panicErr
+	var q *ptrErr
+	return errors.As(err, &p) || errors.As(err, &q)
+}
+
 var errCause = fmt.Errorf("harness: custom cancellation cause")
 
 // the runner the package-global callbacks (Verify, VerifHook) talk to
